@@ -4,7 +4,7 @@
 LEVEL = "other"
 TRUSTED = ['exact safety oracle = reachability in the product of the graph with the subsequence matcher (cross-checked by explicit path enumeration on DAGs)']
 ASSUMPTIONS = ['A4 (not proved): graph-theoretic safety of bridge/dominator-based sequences', "A4'/A4'' (not proved): a route containing a safe list in order uses only edges of the protected set, each listed edge at least as often as listed, a non-SCC edge at most once"]
-EXPLANATION = ("Proved (PyVC, unbounded): safe_paths.process_edge returns a contiguous path of edges containing e that is extended only through unique in-edges on the left and unique out-edges on the right (the structural premise of path safety). Also proved (walk models): _apply_safety_optimizations_fix_zero_edges fixes an edge variable of layer i to 0 only if the edge is not in the layer's safe list, not behind its last node, not before its first node and bridges none of its gaps (all five loops cut at invariants over the membership predicate of the protected set; reachability = the relation the graph object answers, checked by C17); _apply_safety_optimizations installs lower bounds / fixes to 1 only for edges of the layer's safe list (>= at most the number of occurrences; == 1 only outside SCCs) and appends nothing but collections of safe sequences to the subset constraints. The step from these facts to 'no admissible route is cut off' is a segment argument about walks (A4', A4'': assumptions, not proved). The safety of bridge/dominator-based sequences is a graph theorem outside the reach of the engine. The property is decided by the BOUNDED stand-in: every sequence returned by safe_paths / safe_sequences / maximal_safe_sequences_via_dominators / compute_flow_decomp_safe_paths and every model's safe_lists, walks_to_fix and zero-fixings on all DAGs <=4 nodes and digraphs <=3 nodes x trusted sets, against an exact product-automaton oracle (rc/p_C06.py).")
+EXPLANATION = ("Proved (PyVC, unbounded): safe_paths.process_edge returns a contiguous path of edges containing e that is extended only through unique in-edges on the left and unique out-edges on the right (the structural premise of path safety). Also proved: the two-pointer algorithm of compute_inexact_flow_decomp_safe_paths - the running value is the excess flow of the current window, every reported path is a window of the decomposition path with POSITIVE excess flow (the safety criterion of the cited papers, assumed: A4f), the returned edge lists are the consecutive pairs of the reported windows, ValueError exactly for an inadmissible bound on a path edge (+ 5 concrete instances: the reported paths are exactly the maximal windows of positive excess). Also proved (walk models): _apply_safety_optimizations_fix_zero_edges fixes an edge variable of layer i to 0 only if the edge is not in the layer's safe list, not behind its last node, not before its first node and bridges none of its gaps (all five loops cut at invariants over the membership predicate of the protected set; reachability = the relation the graph object answers, checked by C17); _apply_safety_optimizations installs lower bounds / fixes to 1 only for edges of the layer's safe list (>= at most the number of occurrences; == 1 only outside SCCs) and appends nothing but collections of safe sequences to the subset constraints. The step from these facts to 'no admissible route is cut off' is a segment argument about walks (A4', A4'': assumptions, not proved). The safety of bridge/dominator-based sequences is a graph theorem outside the reach of the engine. The property is decided by the BOUNDED stand-in: every sequence returned by safe_paths / safe_sequences / maximal_safe_sequences_via_dominators / compute_flow_decomp_safe_paths and every model's safe_lists, walks_to_fix and zero-fixings on all DAGs <=4 nodes and digraphs <=3 nodes x trusted sets, against an exact product-automaton oracle (rc/p_C06.py).")
 
 
 def units(tier):
@@ -25,6 +25,6 @@ MANIFEST = dict(
     category="other",
     text="Contract-based proofs of the structural clause of safe_paths.process_edge and of the walk models' pruning steps (zero-fixing only outside the protected set of the layer's safe list; lower bounds / fix-to-1 only on listed edges) + bounded stand-in (labelled bounded): executable contracts 'safe', 'pairwise incompatible', 'zero-fix sound' evaluated on the real functions over an exhaustive small universe (incl. option combinations, graphs extended in place, interval flows) against an exact safety oracle.",
     design_ref="DESIGN.md section 3 / C06",
-    note='Under contract: process_edge, the walk models\' _apply_safety_optimizations and _apply_safety_optimizations_fix_zero_edges (the DAG twin of the latter is unreachable on the pinned tree and not claimed). The safe-sequence / dominator algorithms, incompatibility and the graph lemmas behind pruning soundness are decided by the bounded stand-in only.',
-    technique='contract-based deductive verification of three functions (PyVC) + bounded runtime-contract check vs exact product-automaton safety oracle',
+    note='Under contract: process_edge, compute_inexact_flow_decomp_safe_paths (two-pointer excess-flow algorithm), the walk models\' _apply_safety_optimizations and _apply_safety_optimizations_fix_zero_edges (the DAG twin of the latter is unreachable on the pinned tree and not claimed). The safe-sequence / dominator algorithms, incompatibility and the graph lemmas behind pruning soundness are decided by the bounded stand-in only.',
+    technique='contract-based deductive verification of four functions (PyVC) + bounded runtime-contract check vs exact product-automaton safety oracle',
     engine='pyvc+rc')
